@@ -6,7 +6,7 @@ from oracle_util import *  # noqa
 from tokutil import *  # noqa
 
 ID = "C19"
-LEAN_MODULE = ["SCoda.Props.C19", "SCoda.Props.C19b"]
+LEAN_MODULE = ["SCoda.Props.C19", "SCoda.Props.C19b", "SCoda.Props.Gaps"]
 LEVEL = "proof"
 CLAUSES = [
     ("the annotation lists have exactly one entry per token and positions count 0,1,2,...", ["SCoda.C19.lengths", "SCoda.C19.positions", "SCoda.C19.getInfo_eq"]),
@@ -17,6 +17,15 @@ CLAUSES = [
      "and the bar ends strictly increase, so 'the start of its bar' is unambiguous",
      ["SCoda.C19.in_bar_clock", "SCoda.C19.in_bar_annotation", "SCoda.C19.times_monotone", "SCoda.C19.barEnds_increasing",
       "SCoda.C19.dfold_detokFold", "SCoda.C19.lastBarEnd_spec"]),
+
+    ("FINAL output (audit A17): for every stream `pre ++ note :: post` that detokenise accepts — in particular every stream of vocabulary tokens — the row of the "
+     "note token in get_info is (index, detokeniser clock, in-bar clock, pitch, Gen.getPosition pitch) and the sequences *returned* by detokenise hold, on the "
+     "note's track, its note-on at the annotated time and its note-off one duration later (insertions are never undone); the circle-of-fifths column is the "
+     "generated get_position: total, in [-5, 6], circleOfFifthsOrder[q+5] = pitch mod 12",
+     ["SCoda.Gaps.note_annotation_final", "SCoda.Gaps.note_annotation_vocab", "SCoda.Gaps.cof_annotation"]),
+    ("streams produced by a THREADED sequence of tokenise calls (each started from the previous call's state): annotated times never decrease and bar ends strictly "
+     "increase across call boundaries; the concatenation is accepted by detokenise",
+     ["SCoda.Gaps.times_monotone_threaded", "SCoda.Gaps.barEnds_increasing_threaded", "SCoda.Gaps.threaded_accepted"]),
 ]
 RULE = ("random streams over the vocabulary of sampled configurations (<=60 tokens: bar tokens in partly filled bars, "
         "signature tokens mid-bar, unfused running values), plus streams produced by tokenise from valid pieces, with and "
